@@ -22,7 +22,8 @@ Ltac wf_tac :=
   | intros t fks f Hx Hf; explode; try discriminate;
     repeat match goal with H : DropTable _ _ = DropTable _ _ |- _ => inversion H; clear H; subst end;
     simpl in *; explode; try reflexivity
-  | intros x f Hx Hf Hd; explode; simpl in *; explode; try discriminate ].
+  | intros x f Hx Hf Hd; explode; simpl in *; explode; try discriminate
+  | intros x Hx; explode; simpl; repeat constructor; simpl; intuition discriminate ].
 
 Ltac cons_tac :=
   constructor; simpl;
@@ -32,7 +33,8 @@ Ltac cons_tac :=
     repeat match goal with H : ModifyTable _ _ = ModifyTable _ _ |- _ => inversion H; clear H; subst end;
     simpl; auto 10
   | intros x f Hx Hf; explode; simpl in *; explode; simpl; auto 10
-  | intros e He Hd Hn; explode; simpl in *; explode; try congruence ].
+  | intros e He Hd Hn; explode; simpl in *; explode; try congruence
+  | intros x Hx; explode; simpl; try exact I; intros y Hy; explode; simpl; eauto 10 ].
 
 (** * tables: name n, current object id 2n, desired object id 2n+1 *)
 Definition cur (n : nat) : table := mkT n (2 * n).
